@@ -458,7 +458,7 @@ func (r *runner) now() int64 { return r.w.Coord.CurrentTime.Unix() }
 
 func (r *runner) prepRecv() (*sim.Pkt, uint64, bool) {
 	if len(r.pendRecv) == 0 {
-		p, _ := r.w.SendV2(r.l, 1, 0, uint64(r.now()+7*86400), r.payload())
+		p, _ := r.w.SendV2(r.l, 1, 0, uint64(r.now()+6*3600), r.payload())
 		if p == nil {
 			return nil, 0, false
 		}
@@ -470,7 +470,7 @@ func (r *runner) prepRecv() (*sim.Pkt, uint64, bool) {
 
 func (r *runner) prepAck() (*sim.Pkt, uint64, bool) {
 	if len(r.pendAck) == 0 {
-		p, _ := r.w.SendV2(r.l, 0, 0, uint64(r.now()+7*86400), r.payload())
+		p, _ := r.w.SendV2(r.l, 0, 0, uint64(r.now()+6*3600), r.payload())
 		if p == nil {
 			return nil, 0, false
 		}
@@ -617,6 +617,34 @@ func (r *runner) applyTypeCfg(tc, t string, n int) {
 	}
 }
 
+// ensureRateLimit makes the (stake, P) rate limit exist / not exist through genuine authority requests,
+// so that the request under test is well-formed for a rightful signer.
+func (r *runner) ensureRateLimit(want bool, n int) {
+	if r.m.rl == want {
+		return
+	}
+	if want {
+		if !r.m.typeAllowed(r.P.Type) {
+			return // adding needs the client to be usable
+		}
+		if r.asAuthority("rl-add", n, func(signer string) sdk.Msg {
+			m := ratelimittypes.NewMsgAddRateLimit(sdk.DefaultBondDenom, r.P.ID, sdkmath.NewInt(10), sdkmath.NewInt(10), 24)
+			m.Signer = signer
+			return m
+		}) {
+			r.m.rl = true
+		}
+		return
+	}
+	if r.asAuthority("rl-remove", n, func(signer string) sdk.Msg {
+		m := ratelimittypes.NewMsgRemoveRateLimit(sdk.DefaultBondDenom, r.P.ID)
+		m.Signer = signer
+		return m
+	}) {
+		r.m.rl = false
+	}
+}
+
 // ---- requests -------------------------------------------------------------------------
 
 type attempt struct {
@@ -699,23 +727,27 @@ func (r *runner) build(op aop, x *mclient, signer string, sid string) attempt {
 	case "params-icahost":
 		a.msg = icahosttypes.NewMsgUpdateParams(signer, icahosttypes.NewParams(n%2 == 0, []string{fmt.Sprintf("/vx.v1.Msg%dx%d", r.step, n)}))
 	case "rl-add":
+		r.ensureRateLimit(false, n)
 		m := ratelimittypes.NewMsgAddRateLimit(sdk.DefaultBondDenom, r.P.ID, sdkmath.NewInt(int64(1+n%100)), sdkmath.NewInt(int64(1+(n/7)%100)), uint64(1+n%48))
 		m.Signer = signer
 		a.msg = m
 		a.wf = !r.m.rl && r.m.typeAllowed(r.P.Type)
 		a.onOK = func() { r.m.rl = true }
 	case "rl-update":
+		r.ensureRateLimit(true, n)
 		m := ratelimittypes.NewMsgUpdateRateLimit(sdk.DefaultBondDenom, r.P.ID, sdkmath.NewInt(int64(1+n%100)), sdkmath.NewInt(int64(1+(n/7)%100)), uint64(50+r.step))
 		m.Signer = signer
 		a.msg = m
 		a.wf = r.m.rl
 	case "rl-remove":
+		r.ensureRateLimit(true, n)
 		m := ratelimittypes.NewMsgRemoveRateLimit(sdk.DefaultBondDenom, r.P.ID)
 		m.Signer = signer
 		a.msg = m
 		a.wf = r.m.rl
 		a.onOK = func() { r.m.rl = false }
 	case "rl-reset":
+		r.ensureRateLimit(true, n)
 		m := ratelimittypes.NewMsgResetRateLimit(sdk.DefaultBondDenom, r.P.ID)
 		m.Signer = signer
 		a.msg = m
@@ -806,7 +838,7 @@ func (r *runner) build(op aop, x *mclient, signer string, sid string) attempt {
 		a.ctype = nc.Type
 		a.onOK = func() { r.m.clients = append(r.m.clients, nc) }
 	case "use-send":
-		a.msg = channeltypesv2.NewMsgSendPacket(x.ID, uint64(r.now()+7*86400), signer, r.payload())
+		a.msg = channeltypesv2.NewMsgSendPacket(x.ID, uint64(r.now()+6*3600), signer, r.payload())
 		a.wf = x.CP && x.Type == exported.Tendermint
 	case "use-conninit":
 		a.msg = connectiontypes.NewMsgConnectionOpenInit(x.ID, r.l.Client(1), commitmenttypes.NewMerklePrefix([]byte("ibc")), ibctesting.ConnectionVersion, 0, signer)
